@@ -1,4 +1,53 @@
-"""C20 - link URIs select the right driver and parse to the right radio settings (work in progress)."""
+"""C20 - link URIs select the right driver and parse to the right radio settings.
+
+Specification sources (independent of the code): the property statement; the documented radio URI grammar
+radio://<dongle>/<channel>/[250K,1M,2M]/<address>[?rate_limit=<n>] with defaults channel 2, 2M, address E7E7E7E7E7; the
+Crazyradio numbering of the data rates (0 = 250K, 1 = 1M, 2 = 2M, RATE_CODE below); the address is sent to the radio most
+significant byte first, i.e. in the order the hex digits are written, a short address being the low-order digits.
+
+Covered (design section C20, clause -> contracts)
+  1 parse_uri on shaped strings ........ parse_uri.index-dongle.<d>.<c> (27 contracts = dongle digits 1..9 x channel digits 1..3,
+                                         inside: rate absent / 250K / 1M / 2M, address absent / 1..10 hex digits of either case,
+                                         rate_limit absent / 1 / 3 digits [thorough: 2 / 6 digits]; every character of every
+                                         field is symbolic), parse_uri.trailing-slash.<c>, parse_uri.serial-dongle.10/.16
+                                         (serial-number dongle ids through the stubbed crazyradio.get_serials),
+                                         parse_uri.omitted-channel (FINDING, see below)
+    settings applied to the radio ...... radio.connect
+  2 scan round trip .................... radio.scan-roundtrip (real scan_interface, every reported URI is parsed back),
+                                         radio.scan-selected-roundtrip
+  3 one driver per scheme .............. drivers.foreign-uri.<Driver> (for all URIs not starting with the driver's own prefix:
+                                         WrongUriType before any side effect; this replaces the design's "extract the regex
+                                         literals and show them pairwise disjoint" by the stronger statement about the code),
+                                         drivers.first-accepting-driver (the get_link_driver loop over symbolic driver behaviour),
+                                         drivers.init_drivers, drivers.selection (real list, real drivers, 18 URIs x serial on/off),
+                                         drivers.malformed-claimed, drivers.malformed-radio-uri-accepted (FINDING, see below)
+  4 open_link .......................... open_link.driver-lookup-fails (any lookup outcome), open_link.unknown-or-malformed
+                                         (real lookup)
+
+Findings on the unchanged tree (contracts kept; `thorough_only` so that the quick tier stays green until they are triaged as a
+fix or a known_findings.json entry - `./vcheck C20 thorough` reports them as VIOLATION with a native replay):
+  * parse_uri.omitted-channel/no-exception: radio://<dongle>, radio://<dongle>/ and radio://<dongle>?rate_limit=<n> raise
+    ValueError("invalid literal for int() with base 10: ''") instead of defaulting to channel 2 / 2M / E7E7E7E7E7.
+  * drivers.malformed-radio-uri-accepted: radio://0/80/3M, radio://0/80/2M/E7E7E7E7E7/extra, radio://0/+80, radio://0/8_0 are
+    accepted (2M resp. channel 80) and dongle 0 is opened, where the property wants "no driver" for a malformed URI.
+
+Assumptions / stubs
+  * urllib.parse.urlparse / parse_qs, re.search, binascii.unhexlify, str.strip(chars), str.format fill/align are partial models
+    of CPython 3.12 in pyvc/models_uri.py (anything outside them is OutOfSubset = undecided); every proved path is re-run
+    natively on a witness (concordance).
+  * crazyradio.get_serials(), RadioManager, _RadioDriverThread, CfUsb, the CPX / socket / UART transports, the receive threads
+    and SerialDriver.get_devices are recording stubs (c.patch) in both back ends; the prrt python binding is absent
+    (prrt_installed False, as in the sandbox); os.getenv('USE_CFLINK') is None.
+  * Crazyflie objects for open_link are assembled with c.obj (constructor starts threads), callers are recording stubs.
+
+Not covered
+  * USE_CFLINK=cpp (CfLinkCppDriver: native C++ binding, not in the sandbox); cflib.utils.uri_helper (environment look-up only,
+    no clause of the property); the connection set-up that follows a successful open_link (C02).
+  * URI lengths: strings have concrete lengths in this engine, so every "for all URIs" is a for-all over characters for each of
+    an enumerated set of shapes (complete for dongle / channel / address digit counts; bounded for rate_limit digits and for
+    the lengths of foreign URIs - said in `bounded=`); channel values are all 1..3 digit numbers (a superset of 0..125).
+  * PrrtDriver accepting a URI with the binding installed; debug driver (no longer exists).
+"""
 from pyvc.api import contract
 
 RAD = 'cflib.crtp.radiodriver'
@@ -88,15 +137,21 @@ for _nd in range(1, 10):            # the code's own split between index and ser
         _numeric(_nd, _nch, limits=(2, 6), suffix='.long-rate-limit', thorough_only=True)
 
 
-@contract('C20', 'parse_uri.trailing-slash', [PARSE],
-          clause='a trailing slash after the last field changes nothing',
-          bounded='1-digit dongle, 1..3-digit channel; rate_limit value of 1 or 3 digits', max_paths=6000)
-def trailing_slash(c):
-    c.str('dongle', 1, 48, 57)
-    uri, exp = radio_uri(c, 'dongle', c.choice('channel_digits', [1, 2, 3]), slash=(True,))
-    c.snapshot('uri', uri)
-    c.call(PARSE, c.get('uri'))
-    check_parse(c, 'int(dongle)', exp)
+def _trailing_slash(nch):
+    @contract('C20', 'parse_uri.trailing-slash.%d' % nch, [PARSE],
+              clause='a trailing slash after the last field changes nothing (%d-digit channel)' % nch,
+              bounded='1-digit dongle; rate_limit value of 1 or 3 digits', max_paths=6000)
+    def k(c):
+        c.str('dongle', 1, 48, 57)
+        uri, exp = radio_uri(c, 'dongle', nch, slash=(True,))
+        c.snapshot('uri', uri)
+        c.call(PARSE, c.get('uri'))
+        check_parse(c, 'int(dongle)', exp)
+    return k
+
+
+for _nch in (1, 2, 3):
+    _trailing_slash(_nch)
 
 
 @contract('C20', 'parse_uri.omitted-channel', [PARSE],
